@@ -86,6 +86,9 @@ def _grids(D, tier):
     c = Da.mean(axis=0)
     off = [c + 0.37 * (i + 1) * np.array([1.0, -0.6, 0.3][: Da.shape[1]]) * (1 if i % 2 else -1) for i in range(3)]
     out.append(("offsample", [o.tolist() for o in off]))
+    # integer-valued grid points (lattice positions), handed over with an integer dtype
+    ci = np.round(c).astype(int)
+    out.append(("intgrid", [(ci + np.array(([0, 0, 0], [2, 1, 0], [-1, 2, 1])[i][: Da.shape[1]])).astype(float).tolist() for i in range(3)]))
     return out
 
 
@@ -130,6 +133,9 @@ def cases(group):
         for si, st in enumerate(_settings()):
             for ci, cell in enumerate(_cells(d)):
                 if group["tier"] == "quick" and group["grid_label"] == "subset" and (wi + si + ci) % 3:
+                    continue
+                if group["grid_label"] == "intgrid":
+                    yield dict(label=group["label"], D=D, G=G, w=w, setting=st, cell=cell, int_grid=True)
                     continue
                 yield dict(label=group["label"], D=D, G=G, w=w, setting=st, cell=cell)
                 if (wi + si + ci) % 4 == 1:
@@ -196,7 +202,7 @@ def _mixture(Q, D, w, G, H, labels, cell):
     return np.array(out), branches
 
 
-def _fit(D, w, G, setting, cell, used=False):
+def _fit(D, w, G, setting, cell, used=False, int_grid=False):
     from skmatter.neighbors import SparseKDE
 
     kw = dict(setting)
@@ -223,7 +229,7 @@ def _fit(D, w, G, setting, cell, used=False):
     else:
         rec = None
     try:
-        m.fit(np.array(G, float))
+        m.fit(np.array(G, float) if not int_grid else np.array(G, float).astype(np.int64))
     except Exception as e:
         e._verif_rec = rec
         raise
@@ -291,7 +297,7 @@ def check(case):
 
     def fit(Dx, wx, Gx):
         r.transitions += 1
-        return _fit(Dx, wx, Gx, case["setting"], cell, used=bool(case.get("used")))
+        return _fit(Dx, wx, Gx, case["setting"], cell, used=bool(case.get("used")), int_grid=bool(case.get("int_grid")))
 
     try:
         m, rec = fit(D, case["w"], G)
@@ -420,7 +426,7 @@ def check(case):
 
     wlist = case["w"]
     if cell is None:
-        t = np.array([1.75, -2.5, 0.625][:dim])
+        t = np.array([1.75, -2.5, 0.625][:dim]) if not case.get("int_grid") else np.array([2.0, -3.0, 1.0][:dim])
         if not compare("translation", D + t, wlist, G + t, Q + t, "not-translation-invariant"):
             return r
     for pi, perm in enumerate([list(range(n))[::-1], [(i * 5 + 2) % n for i in range(n)] if np.gcd(5, n) == 1 else list(range(1, n)) + [0]]):
@@ -442,6 +448,8 @@ def check(case):
                 D2[n // 3] += sh
                 if not compare("descriptor %d shifted by %+d cell on axis %d" % (n // 3, s, ax), D2, wlist, G, Q, "depends-on-periodic-image-of-descriptor"):
                     return r
+                if case.get("int_grid"):
+                    continue  # an integer-typed grid point cannot be moved by a non-integer cell length
                 G2 = G.copy()
                 G2[-1] += sh
                 two_pi = abs(c[ax] / (2 * np.pi) - round(c[ax] / (2 * np.pi))) < 1e-12
